@@ -26,9 +26,9 @@ func c15Options() []rigOpts {
 			for _, realClock := range []bool{false, true} {
 				for _, fb := range []bool{false, true} {
 					for rtoMode := 0; rtoMode < 3; rtoMode++ {
-						for errMode := 0; errMode < 7; errMode++ {
+						for errMode := 0; errMode < 9; errMode++ {
 							for _, defAgent := range []bool{false, true} {
-								if defAgent && (errMode == 1 || errMode == 3) {
+								if defAgent && (errMode == 1 || errMode == 3 || errMode >= 7) {
 									continue // the agent Close error is injected through the tapping agent
 								}
 								o := rigOpts{noConnClose: ncc, realCollector: realColl, realClock: realClock, fallback: fb, defaultAgent: defAgent}
@@ -53,6 +53,12 @@ func c15Options() []rigOpts {
 									o.connCloseErr = sim.DressError(errInjectedConnClose, 1)
 								case 6:
 									o.connCloseErr = sim.DressError(errInjectedConnClose, 2)
+								case 7:
+									// both fail, and with the very same error value (one underlying resource)
+									o.agentCloseErr, o.connCloseErr = errInjectedAgentClose, errInjectedAgentClose
+								case 8:
+									// ... or the connection's error wraps the agent's
+									o.agentCloseErr, o.connCloseErr = errInjectedAgentClose, &net.OpError{Op: "close", Net: "udp", Err: errInjectedAgentClose}
 								}
 								out = append(out, o)
 							}
